@@ -160,7 +160,24 @@ class Canon:
         if n in ('mkdir', 'rmdir'):
             return '%s %s = %s' % (n, hx(U('path')), self.res(t))
         if n == 'fork':
-            return 'fork = %s' % self.res(t, 1)
+            # the model's `fork argv s` IS fork(); child: dup2(s, 0); execvp(argv[0], argv).  The shim's line carries what the CHILD really
+            # handed to exec (function, file, vector) and which descriptor it had duplicated onto 0 - also for an injected failure of
+            # fork (ghost child, harness/shim/vshim.c).  Anything but one execvp(argv[0], argv) is not the modelled call.
+            if 'argc' not in a:
+                self.notes.append('fork: the child called no exec function (%s)' % t['raw'])
+                return 'fork-noexec = ok 0'
+            argc = int(a['argc'])
+            argv = [proc.unescape(a.get('a%d' % i, '')) for i in range(argc)]
+            fn, f = a.get('fn'), U('file')
+            if fn != 'execvp' or 'execs' in a or argc == 0 or f != argv[0]:
+                self.notes.append('fork: the child ran %s(%r, ...) with argv[0] = %r%s' % (
+                    fn, f, argv[0] if argv else None, ', %s exec calls' % a['execs'] if 'execs' in a else ''))
+                return 'fork-%s%s = ok 0' % (fn, '-file-is-not-argv0' if fn == 'execvp' and 'execs' not in a else '')
+            sfd = int(a.get('stdin', '-2'))
+            if sfd < 0:
+                self.notes.append('fork: descriptor 0 of the child is not the descriptor duplicated onto it last')
+            s = self.h(sfd) if sfd >= 0 else 9999
+            return 'fork %d %d%s = %s' % (s, argc, ''.join(' ' + hx(x) for x in argv), self.res(t, 1))
         if n == 'waitpid':
             st = a.get('status', '0')
             return 'waitpid = %s' % (self.res(t) if err or st == '-' else 'ok %s' % st)
